@@ -6,7 +6,7 @@ for every backend, so `fn get() -> &'static Op` (or a struct field `&'static Op`
 The sibling sites (the `for lt in op.lifetimes.lifetimes()` loop, the Struct arm, gen.rs / mod.rs `does_type_use_lifetime_from_set`) have the
 same shape and are listed as unverified."""
 import re
-from rsrc import Src, Piece, match_close, rule_panics
+from rsrc import Src, Piece, match_close, rule_panics, macro_calls
 from verus_engine import VerusFile, CANARY
 from common import Undecided
 import vhelp
@@ -30,7 +30,14 @@ impl Formatter { #[verifier::external_body] pub fn fmt_lifetime_edge_array(&self
 // hir::MaybeOwn / Borrow / Optional<Borrow>: the ownership of an opaque path in output position (E12: the position marker is erased)
 pub struct Owner { pub lt: Option<MaybeStatic<Lifetime>> }
 impl Owner { pub fn lifetime(&self) -> (r: Option<MaybeStatic<Lifetime>>) ensures r == self.lt { self.lt } }
-pub struct OpaquePath { pub owner: Owner }
+// E11: Lifetimes::lifetimes() (an ExactSizeIterator consumed by `for` only) carried as the Vec of its items
+pub struct Lifetimes { pub v: Vec<MaybeStatic<Lifetime>> }
+impl Lifetimes { #[verifier::external_body] pub fn lifetimes(&self) -> (r: Vec<MaybeStatic<Lifetime>>) ensures r@ == self.v@ { unimplemented!() } }
+pub struct OpaquePath { pub owner: Owner, pub lifetimes: Lifetimes }
+pub struct StructPath { pub lts: Lifetimes }
+impl StructPath { pub fn lifetimes(&self) -> (r: &Lifetimes) ensures *r == self.lts { &self.lts } }
+impl LifetimeEnv { #[verifier::external_body] pub fn fmt_lifetime(&self, lt: Lifetime) -> CowStr { unimplemented!() } }
+#[verifier::external_body] pub fn __w() { unimplemented!() }
 pub struct Ctx<'cx> { pub formatter: &'cx Formatter }
 // what lowering lets through: lower_type / lower_out_type consult `static_slices` for slices only (core/src/hir/lowering.rs, the two
 // `attrs_supported().static_slices` tests); a borrowed opaque may carry 'static in every backend => no constraint on op.owner.lt
@@ -58,6 +65,35 @@ def fragment(src, fn_path, label):
     return frag
 
 
+def loop_fragment(src, fn_path, header, label):
+    it = src.item(fn_path, "fn")
+    body = src.slice(it["start"], it["end"])
+    ms = list(re.finditer(header, body))
+    if len(ms) != 1:
+        raise Undecided("anchor-lost", f"{label}: loop header `{header}` found {len(ms)} times, expected 1")
+    m = ms[0]
+    c = match_close(body, m.end() - 1)
+    a, b = it["start"] + m.start(), it["start"] + c + 1
+    return {"path": it["path"] + "#" + label, "kind": "stmt", "start": a, "after_attrs": a, "end": b, "loops": []}
+
+
+def rule_write_macros(text):
+    """E6: `write!(buf, ..)` (+ `.unwrap()`) appends generated text to a String: text not judged here -> __w()"""
+    pairs = []
+    while True:
+        calls = macro_calls(text, "write")
+        if not calls:
+            break
+        (s, o, c) = calls[0]
+        end = c + 1
+        m = re.compile(r"\s*\.unwrap\(\)").match(text, end)
+        if m:
+            end = m.end()
+        pairs.append((text[s:end], "__w()"))
+        text = text[:s] + "__w()" + text[end:]
+    return text, pairs
+
+
 def build(tier):
     vf = VerusFile(NAME)
     vf.add(vhelp.HEADER)
@@ -77,6 +113,22 @@ def build(tier):
         vf.add("\n        edges\n    }\n", origin=org)
         vf.functions.append({"path": frag["path"], "file": rel, "line": org["line"], "end_line": org["end_line"], "engine": "verus", "mode": "verus (statement fragment, E15)", "bound": "none"})
         vf.expected.append(fname)
+    for (rel, path, env) in ((DART, "impl TyGenContext<'_,'cx>::gen_c_to_dart_for_type", "lifetime_env"), (JS, "impl TyGenContext<'_,'tcx>::gen_c_to_js_for_type", "lifetime_environment")):
+        src = Src(rel)
+        be = "dart" if rel == DART else "js"
+        for (header, label, fname, params) in (
+                (r"for lt in op\.lifetimes\.lifetimes\(\) \{", "Opaque arm: for lt in op.lifetimes", f"{be}_opaque_type_lifetimes", "op: &OpaquePath"),
+                (r"for lt in st\.lifetimes\(\)\.lifetimes\(\) \{", "Struct arm: for lt in st.lifetimes()", f"{be}_struct_type_lifetimes", "st: &StructPath")):
+            frag = loop_fragment(src, path, header, label)
+            p = Piece(src, frag)
+            p.fn("E6", rule_write_macros, why="write!-appended text dropped (not judged here)")
+            p.fn("E5", rule_panics, why="panic! becomes an obligation")
+            org = {"file": rel, "item": frag["path"], "line": src.line_of(frag["start"]), "end_line": src.line_of(frag["end"])}
+            vf.add(f"    // E15: loop of the arm, as a function of the path\n    fn {fname}(&self, {params}, {env}: &LifetimeEnv)\n    {{\n        ", origin=org)
+            vf.add(p.render(), origin=org, edits=p.log)
+            vf.add("\n    }\n", origin=org)
+            vf.functions.append({"path": frag["path"], "file": rel, "line": org["line"], "end_line": org["end_line"], "engine": "verus", "mode": "verus (statement fragment, E15)", "bound": "none"})
+            vf.expected.append(fname)
     vf.add("}\n")
     vf.add(vhelp.FOOTER)
     return vf
@@ -86,4 +138,4 @@ ASSUMPTIONS = [
     "E15: one statement of the Opaque arm of each function is under contract; formatter calls and literal text are abstract",
     "which opaque borrows lowering accepts is read from lower_type / lower_out_type: only slices are tested against static_slices",
 ]
-UNVERIFIED = {"C15": ["the sibling `'static` panics of the same functions (type-lifetime loops of the Opaque and Struct arms, js/gen.rs and dart/mod.rs does_type_use_lifetime_from_set, js/converter.rs:702)"]}
+UNVERIFIED = {"C15": ["the remaining `'static` panics (js/gen.rs:281 and dart/mod.rs / js/gen.rs does_type_use_lifetime_from_set closures, js/converter.rs:702)"]}
